@@ -65,6 +65,39 @@ CHECKS = {
          TB + "; step from token sequences to strings (unique decodability) is a paper lemma"),
 }
 
+
+CHECKS.update({
+ "C09": ("DESIGN.md 4/C09", SE + "; one symbolic corruption (rule x position x bad value) per path on well-formed base games",
+         "Real solve() on a description with one documented well-formedness rule broken at a case-split position: out-of-range "
+         "indices and negative rewards are unconstrained solver variables (so n, -1 and everything beyond are decided by z3), wrong "
+         "types from a menu; ValueError and nothing else on every path; run_games records the message.",
+         TB + "; only the documented rules (NaN / non-numeric rewards / probabilities not summing to 1 are outside)"),
+ "C10": ("DESIGN.md 4/C10", SE + "; schedules of 2-3 solves on one description, snapshot comparison, solver equality of results",
+         "Real solve() called repeatedly (same object / fresh object x pruned / unpruned, every schedule) on every stopping template: "
+         "the caller's description is unchanged after every solve and solves with the same pruning flag return identical results "
+         "(symbolic rewards compared by the solver).", TB + "; template games, schedules of length <= 3"),
+ "C11": ("DESIGN.md 4/C11", SE + "; real writer -> text -> real reader round trip with symbolic contents; per-tile lemmas; main() harness",
+         "Real write_robots output read back with the real read_dict_from_file for every board with <=4 tiles (all layouts, symbolic "
+         "rewards and probabilities): exactly game_a/b/c, each accepted by check_game/init_states, every state has a transition, chance "
+         "probabilities positive and summing to 1, single absorbing winning final state, absorbing losing state; per-tile lemmas give the "
+         "same for boards of any size; main() shows exactly the documented parameter ranges reach the writer.",
+         TB + "; 'each game is then solved or reported unsolvable' only as a concrete sentinel on boards <=3 tiles"),
+ "C12": ("DESIGN.md 4/C12", SE + "; real run_games on menus of solvable / no-solution / malformed games in every order vs solving alone",
+         "Real run_games on dictionaries of 1-3 games (symbolic rewards, symbolic bad values) in every order: entries in run order, "
+         "results equal to solving each game alone (solver equality), failing game reported with its message, unpruned entry 'Game not "
+         "solved', other games unaffected, caller's dictionaries unchanged.", TB + "; menu of 6 games; total_time not compared"),
+ "C13": ("DESIGN.md 4/C13", SE + "; a description and its re-presentation (state permutation, transition order, action renaming) solved in one path",
+         "Real solve() on template instances and their re-presentations: same solvable/no-solution outcome; probabilities and rewards "
+         "agree up to renumbering within tolerance (solver query over symbolic rewards); strategies agree up to renaming where the "
+         "oracle's competing values are equal/separated.", TB + "; template games; seeded permutations beyond reversal/rotation"),
+ "C16": ("DESIGN.md 4/C16", "parametric symbolic execution of the real report writer on opaque tokens (solver only splits the equality flag); reader/main on menus",
+         "Real save_results_to_file executed on result dictionaries whose values are opaque tokens: file name outputs/<stem>.txt, one "
+         "block per entry in order, 14 labelled lines each carrying exactly the token stored under its key, equality line = truth value of "
+         "the comparison on both branches; real reader and main() on menus of contents/arguments; concrete literal round-trip sentinel.",
+         TB + "; parametricity argument; repr/eval round trip of Python literals trusted (sentinel only)"),
+})
+LEVEL = {"C16": "other", "C07": "model_checking"}
+
 NA = {}
 
 def main():
@@ -80,7 +113,7 @@ def main():
                 evidence_file="evidence/%s.json" % pid,
                 replay_cmd_template="python3-vt check.py replay {path}",
                 engine="symex",
-                level_claimed=dict(category="model_checking", text=text, design_ref=ref),
+                level_claimed=dict(category=LEVEL.get(pid, "model_checking"), text=text, design_ref=ref),
                 level_note=note, technique=tech))
     na = [dict(property_id=p, reason=NA.get(p, "check not built yet (work in progress); see DESIGN.md section 4 for the planned harness"))
           for p in props if p not in CHECKS]
